@@ -2,6 +2,8 @@
 from __future__ import annotations
 
 import copy
+import functools
+import operator
 import os
 
 from hypothesis import strategies as st
@@ -121,6 +123,10 @@ def _roundtrip(kg, snap1, label):
     return kg2
 
 
+def _scaled(value, factor=1.1, offset=0.0):
+    return value * factor + offset
+
+
 MODS = {
     "x1.2": lambda v: v * 1.2,
     "x1/3": lambda v: v / 3,
@@ -130,6 +136,12 @@ MODS = {
     "const1e-5": lambda v: 1e-5,
     "const1e20": lambda v: 1e20,
     "neg": lambda v: -v,
+    # callables of other shapes: a bound parameter with a default (the loop-binding idiom), a def with a keyword
+    # option, a builtin, a partial - each is still called with the value only
+    "x0.9_default_arg": lambda v, k=0.9: v * k,
+    "def_with_option": _scaled,
+    "builtin_abs": abs,
+    "partial_mul": functools.partial(operator.mul, 1.5),
 }
 
 
